@@ -362,6 +362,7 @@ func (c *Ctx) Trace(fn *ssa.Function, cfg TraceConfig) ([]*Trace, bool) {
 	if cfg.MaxSteps == 0 {
 		cfg.MaxSteps = 20000
 	}
+	c.traced(fn)
 	tr := &Tracer{c: c, cfg: cfg, entry: fn, badInv: map[string]bool{}}
 	for round := 0; round < 6; round++ {
 		tr.traces, tr.over, tr.restart, tr.params = nil, false, false, nil
